@@ -278,11 +278,11 @@ type c01ObjStore interface {
 func c01Forward(c *fw.Ctx, f, entry string, cs []c01Content, oracle map[string][]string) {
 	fail := func(label, kind, t string, k int, got, want string) {
 		key := fmt.Sprintf("forward/%s/%s/%s: %s", label, f, t, kind)
-		c.Fail(key, fmt.Sprintf("%s writing a %s of %d bytes via %s in a %s repository: got %s, want %s", kind, t, len(cs[k].data), label, f, got, want),
+		aFail(c, key, fmt.Sprintf("%s writing a %s of %d bytes via %s in a %s repository: got %s, want %s", kind, t, len(cs[k].data), label, f, got, want),
 			map[string]any{"format": f, "entry": label, "type": t, "content": aShort(cs[k].data), "size": len(cs[k].data), "got": got, "want": want})
 	}
 	setupFail := func(what string, err any) {
-		c.Fail(fmt.Sprintf("forward/%s/%s: %s", entry, f, what), fmt.Sprintf("%s (%s repository, entry %s): %v", what, f, entry, err), map[string]any{"format": f, "entry": entry})
+		aFail(c, fmt.Sprintf("forward/%s/%s: %s", entry, f, what), fmt.Sprintf("%s (%s repository, entry %s): %v", what, f, entry, err), map[string]any{"format": f, "entry": entry})
 	}
 	var (
 		g    *fw.Git
@@ -555,7 +555,7 @@ func c01Forward(c *fw.Ctx, f, entry string, cs []c01Content, oracle map[string][
 		all := strings.Fields(string(g.MustRun("cat-file", "--batch-all-objects", "--batch-check=%(objectname)", "--unordered").Out))
 		for _, id := range all {
 			if !expected[id] {
-				c.Fail(fmt.Sprintf("forward/%s/%s: stray object", label, f), "go-git stored an object under a name git did not compute for any input: "+id,
+				aFail(c, fmt.Sprintf("forward/%s/%s: stray object", label, f), "go-git stored an object under a name git did not compute for any input: "+id,
 					map[string]any{"format": f, "entry": label, "id": id})
 			}
 		}
@@ -564,7 +564,7 @@ func c01Forward(c *fw.Ctx, f, entry string, cs []c01Content, oracle map[string][
 			// content is arbitrary, so fsck complains about malformed trees/commits;
 			// only storage-level complaints matter here.
 			if strings.Contains(l, "hash mismatch") || strings.Contains(l, "hash-path mismatch") || strings.Contains(l, "corrupt") || strings.Contains(l, "garbage") || strings.Contains(l, "unable to unpack") {
-				c.Fail(fmt.Sprintf("forward/%s/%s: fsck storage complaint", label, f), "git fsck: "+l, map[string]any{"format": f, "entry": label, "line": l})
+				aFail(c, fmt.Sprintf("forward/%s/%s: fsck storage complaint", label, f), "git fsck: "+l, map[string]any{"format": f, "entry": label, "line": l})
 			}
 		}
 	}
@@ -603,7 +603,7 @@ func c01Reverse(c *fw.Ctx, f, opt, gitDir string, cs []c01Content, oracle map[st
 	oh := plumbing.FromObjectFormat(c01FormatOf(f))
 	fail := func(kind, t string, k int, got, want string) {
 		key := fmt.Sprintf("reverse/%s/%s/%s: %s", opt, f, t, kind)
-		c.Fail(key, fmt.Sprintf("%s reading a git-written %s of %d bytes with options %s in a %s repository: got %s, want %s", kind, t, len(cs[k].data), opt, f, got, want),
+		aFail(c, key, fmt.Sprintf("%s reading a git-written %s of %d bytes with options %s in a %s repository: got %s, want %s", kind, t, len(cs[k].data), opt, f, got, want),
 			map[string]any{"format": f, "read_option": opt, "type": t, "content": aShort(cs[k].data), "size": len(cs[k].data), "id": oracle[t][k], "got": got, "want": want})
 	}
 	byID := map[string][2]int{} // id -> (type index, k)
@@ -728,7 +728,7 @@ func c01Reverse(c *fw.Ctx, f, opt, gitDir string, cs []c01Content, oracle map[st
 				c.Eval()
 				tk, ok := byID[id]
 				if !ok || !want[id] {
-					c.Fail(fmt.Sprintf("reverse/%s/%s: IterEncodedObjects(%s) yields an object git did not write", opt, f, it), "id "+id+" type "+obj.Type().String(),
+					aFail(c, fmt.Sprintf("reverse/%s/%s: IterEncodedObjects(%s) yields an object git did not write", opt, f, it), "id "+id+" type "+obj.Type().String(),
 						map[string]any{"format": f, "read_option": opt, "iter": it, "id": id})
 					return nil
 				}
@@ -738,7 +738,7 @@ func c01Reverse(c *fw.Ctx, f, opt, gitDir string, cs []c01Content, oracle map[st
 			})
 		})
 		if p != "" || iterErr != nil {
-			c.Fail(fmt.Sprintf("reverse/%s/%s: IterEncodedObjects(%s) fails", opt, f, it), fmt.Sprintf("%v %s", iterErr, p), map[string]any{"format": f, "read_option": opt, "iter": it})
+			aFail(c, fmt.Sprintf("reverse/%s/%s: IterEncodedObjects(%s) fails", opt, f, it), fmt.Sprintf("%v %s", iterErr, p), map[string]any{"format": f, "read_option": opt, "iter": it})
 			continue
 		}
 		for id := range want {
